@@ -19,6 +19,39 @@ Fixpoint arg_calls (l : list val) : option (list (bytes * bytes)) :=
   | _ => None
   end.
 
+(* a point object given by the arguments of the constructor S256Point(x, y); [] = S256Point(None, None) *)
+Definition arg_point (v : val) : option (result point) :=
+  match v with
+  | VL [] => Some (Ok None)
+  | VL [VI x; VI y] => Some (mk_point_int K1 x y)
+  | _ => None
+  end.
+
+Fixpoint arg_session (l : list val) : option (list api_call) :=
+  match l with
+  | [] => Some []
+  | c :: r =>
+      match arg_session r with
+      | None => None
+      | Some rest =>
+          match c with
+          | VL [VI 0; VB t; VB m] => Some (CallHash t m :: rest)
+          | VL [VI 1; VI d; VB m; VB a] => Some (CallSign d m a :: rest)
+          | VL [VI 2; VB pk; VB m; VB sig] => Some (CallVerify pk m sig :: rest)
+          | _ => None
+          end
+      end
+  end.
+
+Definition vout (o : api_out) : val :=
+  match o with
+  | OutHash h => VB h
+  | OutSign r => vres_b r
+  | OutVerify r => vres_bool r
+  end.
+
+Definition vsig (rs : point * Z) : val := let '(r, s) := rs in VL [vpt r; VI s].
+
 Definition dispatch (H : oracle) (fn : list Z) (args : list val) : val :=
   let sha := o_sha256 H in
   if fn_is "sign_schnorr" fn then
@@ -58,6 +91,64 @@ Definition dispatch (H : oracle) (fn : list Z) (args : list val) : val :=
     | [VL calls] =>
         match arg_calls calls with
         | Some cs => vbl (snd (th_run sha [] cs))
+        | None => bad_args
+        end
+    | _ => bad_args end
+  (* ---- the object-level API, defaults, any-length strings, the cache as state ---- *)
+  else if fn_is "sign_schnorr_noaux" fn then
+    match args with
+    | [VI d; VB m] => vres_b (schnorr_sign_opt K1 sha d m None)
+    | _ => bad_args end
+  else if fn_is "bip340_k_noaux" fn then
+    match args with
+    | [VI d; VB m] => vres_i (bip340_k_opt K1 sha d m None)
+    | _ => bad_args end
+  else if fn_is "bip340_nonce" fn then
+    match args with
+    | [VI d; VB m; VB a] => match bip340_nonce K1 sha d m a with Some k => VI k | None => VErr end
+    | _ => bad_args end
+  else if fn_is "sign_schnorr_obj" fn then
+    match args with
+    | [VI d; VB m; VB a] => vres vsig (schnorr_sign_obj K1 sha d m a)
+    | _ => bad_args end
+  else if fn_is "schnorr_parse_eq" fn then
+    match args with
+    | [VB a; VB b] => vres_bool (schnorr_parse_eq K1 a b)
+    | _ => bad_args end
+  else if fn_is "schnorr_reserialize" fn then
+    match args with
+    | [VB sig] => vres_b (schnorr_reserialize K1 sig)
+    | _ => bad_args end
+  else if fn_is "verify_schnorr_point" fn then
+    match args with
+    | [pv; VB m; VB sig] =>
+        match arg_point pv with
+        | Some rp => vres_bool (P <- rp ;; schnorr_verify_point K1 sha P m sig)
+        | None => bad_args
+        end
+    | _ => bad_args end
+  else if fn_is "verify_schnorr_obj" fn then
+    (* S256Point(x, y).verify_schnorr(m, SchnorrSignature(S256Point(rx, ry), s)) for any integer s *)
+    match args with
+    | [pv; VB m; rv; VI s] =>
+        match arg_point pv, arg_point rv with
+        | Some rp, Some rr =>
+            vres_bool (P <- rp ;; R <- rr ;;
+                       if cn K1 <=? s then Err else schnorr_verify K1 sha P m R s)
+        | _, _ => bad_args
+        end
+    | _ => bad_args end
+  else if fn_is "bip340_verify_canon" fn then
+    match args with
+    | [VB pk; VB m; VB sig] => vbool (bip340_verify K1 sha pk m (sig_canon sig))
+    | _ => bad_args end
+  else if fn_is "api_session" fn then
+    match args with
+    | [VL calls] =>
+        match arg_session calls with
+        | Some cs =>
+            let '(c, outs) := api_run K1 sha [] cs in
+            VL [VL (map vout outs); vbl (map fst c)]
         | None => bad_args
         end
     | _ => bad_args end
